@@ -225,6 +225,15 @@ def SprintArrayDefault (skip : Bool) (p : Param) (st : Store) : Bool :=
   (match p.dflt with | some (.list _) => true | _ => false) &&
   (match decode p (st.get p.key) with | .nil _ => true | _ => false)
 
+/-- the parameters of one operation have pairwise distinct (location, name) -/
+def keysDistinct : List Param → Bool
+  | [] => true
+  | p :: ps => ps.all (fun q => q.key != p.key) && keysDistinct ps
+
+/-- the parameter is in none of the three classes -/
+def Regular (skip : Bool) (p : Param) (st : Store) : Bool :=
+  !EmptyPresent skip p st && !UntypedDefault skip p && !SprintArrayDefault skip p st
+
 /-- Spec, from the property text: a parameter that is ABSENT and has a default appears with that default, in the
     serialisation its own decoder reads; nothing else changes. -/
 def specEncode (p : Param) (d : PVal) : List Wire :=
